@@ -81,6 +81,30 @@ def check_one(r, lw, how, ns, dt, shift, case, base=None):
     except Exception as e:
         r.violation(f"C02/construct-raises/{type(e).__name__}", repr(e)[:200], case)
         return None
+    out = verify(r, s, lw, ns, dt, case, "")
+    if out is None:
+        return None
+    # non-initial state: the same object re-weighted in place (a log-density vector replaced, weights recomputed)
+    if case.get("shift", 0.0) == 0.0 and how != "proposal" and all(math.isfinite(v) for v in lw):
+        try:
+            xp = get_xp(ns)
+            s2 = make(lw, how, ns, dt, 0.0)
+            bump = xp.asarray(np.linspace(0.5, 2.0, len(lw)), dtype=get_dtype(ns, dt))
+            s2.log_likelihood = s2.log_likelihood + bump
+            s2.compute_weights()
+            r.case(explorer.digest(dict(case, reweighted_in_place=True)), nontrivial=True, n=2)
+            verify(r, s2, lw, ns, dt, dict(case, reweighted_in_place=True), "/after-in-place-reweighting")
+            s2.log_q = s2.log_q - 1.25
+            s2.compute_weights()
+            verify(r, s2, lw, ns, dt, dict(case, reweighted_in_place=2), "/after-in-place-reweighting")
+        except Exception as e:
+            r.violation(f"C02/in-place-reweighting-raises/{type(e).__name__}", repr(e)[:200], case)
+    return out
+
+
+def verify(r, s, lw, ns, dt, case, tag):
+    """All functionals of one sample set against the mpmath definitions evaluated on its stored fields."""
+    eps = EPS[dt]
     L = tonp(s.log_likelihood).astype(np.float64)
     P = tonp(s.log_prior).astype(np.float64)
     Q = tonp(s.log_q).astype(np.float64)
@@ -95,7 +119,7 @@ def check_one(r, lw, how, ns, dt, shift, case, base=None):
         else:
             ok = abs(lws[i] - want[i]) <= 4 * eps * mag[i] + 1e-300
         if not ok:
-            r.violation("C02/log_w-elementwise", {"i": i, "got": lws[i], "want": want[i]}, case)
+            r.violation("C02/log_w-elementwise" + tag, {"i": i, "got": lws[i], "want": want[i]}, case)
             return None
     fin = lws[np.isfinite(lws)]
     if len(fin) == 0:
@@ -106,45 +130,45 @@ def check_one(r, lw, how, ns, dt, shift, case, base=None):
     le_ref = ref.log_mean_exp(lws)
     le = f(s.log_evidence)
     if not ref.close(le, le_ref, 0.0, 8 * eps * (scale + 10)):
-        r.violation("C02/log_evidence", {"got": le, "ref": float(le_ref)}, case)
+        r.violation("C02/log_evidence" + tag, {"got": le, "ref": float(le_ref)}, case)
     ess_ref = float(ref.ess(lws))
     r.outcomes.add((round(float(le_ref), 6), round(ess_ref, 6)))
     spread = float(mx - fin.min()) if len(fin) > 1 else 0.0
     tol_ess = 16 * eps * (1 + scale) * n
     ess = f(s.effective_sample_size)
     if not math.isfinite(ess) or abs(ess - ess_ref) > tol_ess * max(1.0, ess_ref):
-        r.violation("C02/ess", {"got": ess, "ref": ess_ref}, case)
+        r.violation("C02/ess" + tag, {"got": ess, "ref": ess_ref}, case)
     if not (1 - 1e-6 <= ess <= n + 1e-6 * n):
-        r.violation("C02/ess-range", {"got": ess, "n": n}, case)
+        r.violation("C02/ess-range" + tag, {"got": ess, "n": n}, case)
     eff = f(s.efficiency)
     if abs(eff * n - ess) > 1e-6 * n:
-        r.violation("C02/efficiency", {"eff": eff, "ess": ess}, case)
+        r.violation("C02/efficiency" + tag, {"eff": eff, "ess": ess}, case)
     sw = tonp(s.scaled_weights).astype(np.float64)
     sw_ref = [float(ref.mp.exp(ref.mpf(v) - ref.mpf(mx))) if math.isfinite(v) else 0.0 for v in lws]
     for i in range(n):
         if abs(sw[i] - sw_ref[i]) > 8 * eps * (1 + abs(lws[i] - mx if math.isfinite(lws[i]) else 0)) * max(sw_ref[i], 1e-30) + 1e-38:
-            r.violation("C02/scaled_weights", {"i": i, "got": sw[i], "ref": sw_ref[i]}, case)
+            r.violation("C02/scaled_weights" + tag, {"i": i, "got": sw[i], "ref": sw_ref[i]}, case)
             break
     # relative error of the evidence: finite and accurate even far outside exp()'s range
     lee = f(s.log_evidence_error)
     lee_ref = float(ref.rel_evidence_error(lws))
     big = "outside-exp-range" if abs(mx) > 700 or (fin.min() < -700) else "in-range"
     if not math.isfinite(lee):
-        r.violation(f"C02/log_evidence_error/not-finite/{big}", {"got": lee, "ref": lee_ref, "log_w": lws.tolist()}, case)
+        r.violation(f"C02/log_evidence_error/not-finite/{big}" + tag, {"got": lee, "ref": lee_ref, "log_w": lws.tolist()}, case)
     elif abs(lee - lee_ref) > 64 * eps * (1 + scale) * max(1.0, lee_ref) + (1e-6 if dt == "float32" else 1e-12):
-        r.violation(f"C02/log_evidence_error/inaccurate/{big}", {"got": lee, "ref": lee_ref, "log_w": lws.tolist()}, case)
+        r.violation(f"C02/log_evidence_error/inaccurate/{big}" + tag, {"got": lee, "ref": lee_ref, "log_w": lws.tolist()}, case)
     # helpers
     from aspire.utils import effective_sample_size, logsumexp
 
     try:
         e2 = f(effective_sample_size(s.log_w))
         if abs(e2 - ess_ref) > tol_ess * max(1.0, ess_ref):
-            r.violation("C02/utils.effective_sample_size", {"got": e2, "ref": ess_ref}, case)
+            r.violation("C02/utils.effective_sample_size" + tag, {"got": e2, "ref": ess_ref}, case)
         l2 = f(logsumexp(s.log_w))
         if not ref.close(l2, ref.logsumexp(lws), 0.0, 8 * eps * (scale + 10)):
-            r.violation("C02/utils.logsumexp", {"got": l2, "ref": float(ref.logsumexp(lws))}, case)
+            r.violation("C02/utils.logsumexp" + tag, {"got": l2, "ref": float(ref.logsumexp(lws))}, case)
     except Exception as e:
-        r.violation(f"C02/utils-raises/{type(e).__name__}", repr(e)[:200], case)
+        r.violation(f"C02/utils-raises/{type(e).__name__}" + tag, repr(e)[:200], case)
     return le, ess, s
 
 
